@@ -11,6 +11,7 @@ import (
 	"net"
 	"os"
 	"os/exec"
+	"os/user"
 	"path/filepath"
 	"strconv"
 	"strings"
@@ -63,6 +64,8 @@ func (c *Case) watchdogMs() int {
 	total := 20000
 	for _, s := range c.Steps {
 		switch s.Op {
+		case "storm":
+			total += 6000 + c.opBoundMs("transition")
 		case "sleep", "sleep-rel", "await":
 			total += s.Ms
 		default:
@@ -177,6 +180,12 @@ func runCaseOnce(c *vlib.Ctx, idx, attempt int, self, bin, casesRoot, only strin
 		return false
 	}
 	cs.Bin = bin
+	if cs.Child.User && os.Geteuid() == 0 {
+		// credentials can only be set by a root executor; the current account needs no provisioning
+		if me, err := user.Current(); err == nil {
+			cs.UserName = me.Username
+		}
+	}
 	cs.Token = fmt.Sprintf("c17.%d.%d.%d.%d", os.Getpid(), c.Seed, idx, attempt)
 	cs.Dir = filepath.Join(casesRoot, fmt.Sprintf("case-%05d", idx))
 	_ = os.RemoveAll(cs.Dir)
@@ -292,6 +301,12 @@ func runCaseOnce(c *vlib.Ctx, idx, attempt int, self, bin, casesRoot, only strin
 	if cs.Child.NeverReady != "" {
 		c.Count("never_ready_children", 1)
 	}
+	if cs.UserName != "" {
+		c.Count("user_cases", 1)
+		if cs.JudgeSurvivors {
+			c.Count("user_cases_survivors_judged", 1)
+		}
+	}
 	if cs.KilledOnRequest && (cs.Child.HangGetState || (cs.Child.DieOn != "" && cs.Scenario != "child-dies-on-start-then-kill")) {
 		c.Count("deaths_during_kill_cases", 1)
 	}
@@ -329,6 +344,8 @@ func runCaseOnce(c *vlib.Ctx, idx, attempt int, self, bin, casesRoot, only strin
 				c.Count("kills_child_"+side, 1)
 			case e.Name == "trigger":
 				c.Count("triggers", 1)
+			case strings.HasPrefix(e.Name, "bigtransition:"):
+				c.Count("big_transition_requests", 1)
 			case strings.HasPrefix(e.Name, "transition:"):
 				c.Count("transitions", 1)
 			}
